@@ -108,6 +108,13 @@ pub fn run(seed: u64, n: usize, out: &mut Out) {
         if rules.is_empty() {
             continue;
         }
+        // compiled regexes may be dropped and rebuilt at any time: with a discard policy that drops everything at
+        // every query, each request is asked twice and the second answer (from rebuilt regexes) is the one compared
+        let churn = r.pct(25);
+        if churn {
+            engine.set_regex_discard_policy(adblock::regex_manager::RegexManagerDiscardPolicy { cleanup_interval: std::time::Duration::from_nanos(1), discard_unused_time: std::time::Duration::from_nanos(0) });
+            out.bump("engines_with_regex_churn");
+        }
         let case = Case { lines: lines.clone(), optimize, tags };
         for _ in 0..4 {
             let (mut u, s, t) = if clustered { gen::cluster_url(&mut r, &lines) } else { gen::url_from(&mut r, &lines) };
@@ -120,6 +127,10 @@ pub fn run(seed: u64, n: usize, out: &mut Out) {
                 continue;
             }
             if let Some(q) = make_req(&u, &s, &t) {
+                if churn {
+                    let _ = engine.check_network_request(&q.req);
+                    std::thread::sleep(std::time::Duration::from_micros(5));
+                }
                 emit(out, &case, &engine, &rules, &resources, &q, "chk");
             }
         }
